@@ -46,7 +46,14 @@ LINES = [
     ["one", "x", "-vvv"], ["bad", "-vvv"], ["one", "x", "-v"], ["dfl", "a", "b", "c"], ["help", "dfl"], ["dfl", "--help"],
     # 31-32: a handler given as a factory that keeps state on itself
     ["stateful"], ["stateful", "fail"],
+    # 33-36: tokens with a blank inside (quoted on a shell's command line): different lines although they read alike when joined
+    ["one", "x y"], ["many", "a b", "c"], ["many", "a", "b c"], ["one", "--num=5", "x y"],
+    # 37-38: a handler that registers a style on its I/O at run time, and a command that only uses the tag
+    ["styler"], ["show"],
+    # 39-40: a command that keeps its question object and asks it again on every run (typed input below)
+    ["askq"], ["askq", "twice"],
 ]
+INPUTS = {39: "b\n5\n", 40: "zz\n7\nx\n9\n"}
 
 
 class Env(object):
@@ -124,15 +131,51 @@ class Env(object):
 
         st = c.create_command("stateful").set_description("handler with state")
         st.add_argument("what", A.OPTIONAL, "what to do").set_handler(Stateful)
+        from clikit.api.formatter import Style
+        from clikit.ui.components import Question
+
+        class Styler(object):
+            def handle(self, args, io, command):
+                log.append((command.full_name, args.arguments(True), args.options(False), io.verbosity))
+                for o in (io.output, io.error_output):
+                    o.formatter.add_style(Style("hot").fg("red").bold())
+                io.write_line("<hot>42</hot> items")
+                return 0
+
+        class Show(object):
+            def handle(self, args, io, command):
+                log.append((command.full_name, args.arguments(True), args.options(False), io.verbosity))
+                io.write_line("<hot>42</hot> items and <info>info</info>")
+                return 0
+
+        class Asker(object):
+            """Owns its question: the same Question object is asked in every run."""
+
+            def __init__(self):
+                self.question = Question("Number?")
+                self.question.set_validator(int)
+                self.question.set_max_attempts(3)
+
+            def handle(self, args, io, command):
+                log.append((command.full_name, args.arguments(True), args.options(False), io.verbosity))
+                answers = [self.question.ask(io)]
+                if args.argument("mode") == "twice":
+                    answers.append(self.question.ask(io))
+                io.write_line("answers %r" % (answers,))
+                return 0
+
+        c.create_command("styler").set_description("adds a style").set_handler(Styler())
+        c.create_command("show").set_description("uses the tag").set_handler(Show())
+        c.create_command("askq").set_description("asks").add_argument("mode", A.OPTIONAL, "mode").set_handler(Asker())
         many = c.create_command("many").set_description("many values")
         many.add_argument("items", A.MULTI_VALUED, "items").add_option("flag", "f", O.NO_VALUE, "a flag").set_handler(H("many"))
         many.set_args_parser(shared_parser)
         return self.App(c)
 
-    def run(self, app, raw):
+    def run(self, app, raw, typed=""):
         o, e = self.Stream(), self.Stream()
         try:
-            st = app.run(raw, self.StringInputStream(""), o, e)
+            st = app.run(raw, self.StringInputStream(typed), o, e)
         except BaseException as ex:
             st = "raised %r" % (ex,)
         return st, o.fetch(), e.fetch()
@@ -153,11 +196,11 @@ def run_history(sh, env, idx, reuse_raw, refs):
         else:
             raw = env.ArgvArgs(["prog"] + line)
         del log[:]
-        got = env.run(app, raw) + (list(log),)
+        got = env.run(app, raw, INPUTS.get(i, "")) + (list(log),)
         if i not in refs:
             flog = []
             fapp = env.build(flog)
-            refs[i] = env.run(fapp, env.ArgvArgs(["prog"] + line)) + (list(flog),)
+            refs[i] = env.run(fapp, env.ArgvArgs(["prog"] + line), INPUTS.get(i, "")) + (list(flog),)
         want = refs[i]
         sh.count("runs_compared")
         if got != want:
@@ -181,7 +224,7 @@ def classify(record, k):
 
 HELPISH = {6, 7, 8, 9, 17, 29, 30}
 FAILING = {2, 3, 4, 5, 9, 16, 26, 32}
-NORMAL = {0, 1, 12, 13, 14, 15, 19, 21, 25, 27, 28, 31}
+NORMAL = {0, 1, 12, 13, 14, 15, 19, 21, 25, 27, 28, 31, 33, 34, 35, 36, 37, 38, 39, 40}
 
 
 def nontrivial(idx):
